@@ -8,6 +8,11 @@ For **every** table and **every** string: the descending search of `Table.to_byt
 remains (`tryLen_longest`), hence `to_bytes` is the reference longest-match encoder
 (`toBytes_is_encode`).  The size the directive is given in the address layout is `len(to_bytes(text))`
 by construction (`AbstractTextNode.pc_after`), see C02.
+
+**Decode round trip** (`roundtrip`): over a table whose codes are unique, non-empty, prefix-free and without
+`ignore` suffixes (`Decodable`), `to_text` of the concatenated codes of any sequence of entries returns the
+concatenation of their texts — the descending byte-length search finds exactly the code that was emitted,
+because any longer matching code would have that code as a proper prefix.
 -/
 namespace A816.C18
 open A816 Spec.Table
@@ -411,5 +416,119 @@ example : (mkTable tAB).toOption.map (fun t => (t.toBytes "a[0xFe]zab".toList).t
     = some (some [1, 0xFE, 3]) := by decide +kernel
 example : encode (linesOf [⟨['a'], [1], none⟩, ⟨['a', 'b'], [3], none⟩]) 3 "aab".toList = some [1, 3] := by
   decide +kernel
+
+/-- a table whose codes can be decoded unambiguously: no `ignore` suffixes, no empty code, the codes identify
+    their entry, no code is a proper prefix of another, and `maxCodeLen` covers every code (as `mkTable` computes it) -/
+structure Decodable (t : Tbl) : Prop where
+  noIgnore : ∀ e ∈ t.entries, e.ignore = none
+  nonEmpty : ∀ e ∈ t.entries, e.code ≠ []
+  unique : ∀ e1 ∈ t.entries, ∀ e2 ∈ t.entries, e1.code = e2.code → e1 = e2
+  prefixFree : ∀ e1 ∈ t.entries, ∀ e2 ∈ t.entries, e1.code <+: e2.code → e1.code = e2.code
+  maxLen : ∀ e ∈ t.entries, e.code.length ≤ t.maxCodeLen
+
+theorem tblInvLookup_some (es : List TblEntry) (c : List Nat) (e : TblEntry) (h : tblInvLookup es c = some e) :
+    e ∈ es ∧ e.code = c := by
+  unfold tblInvLookup at h
+  have hm := List.mem_of_find?_eq_some h
+  have hp := List.find?_some h
+  exact ⟨by simpa using hm, by simpa using hp⟩
+
+theorem tblInvLookup_none (es : List TblEntry) (c : List Nat) (h : tblInvLookup es c = none) :
+    ∀ e ∈ es, e.code ≠ c := by
+  unfold tblInvLookup at h
+  rw [List.find?_eq_none] at h
+  intro e he hc
+  exact h e (by simpa using he) (by simpa using hc)
+
+theorem tblInvLookup_mem (es : List TblEntry) (e : TblEntry) (he : e ∈ es) : ∃ e', tblInvLookup es e.code = some e' := by
+  cases h : tblInvLookup es e.code with
+  | some e' => exact ⟨e', rfl⟩
+  | none => exact absurd rfl (tblInvLookup_none es e.code h e he)
+
+/-- the downward loop finds the match at length `n` when nothing longer matches -/
+theorem tryLenBytes_found (es : List TblEntry) (rem : List Nat) (n : Nat) (e0 : TblEntry) (hn : 0 < n)
+    (h0 : tblInvLookup es (rem.take n) = some e0) :
+    ∀ k, n ≤ k → (∀ j, n < j → j ≤ k → tblInvLookup es (rem.take j) = none) → tryLenBytes es rem k = some (e0, n) := by
+  intro k
+  induction k with
+  | zero => intro hk; omega
+  | succ k ih =>
+    intro hk hnone
+    unfold tryLenBytes
+    by_cases heq : n = k + 1
+    · subst heq; rw [h0]
+    · have hlt : n < k + 1 := by omega
+      rw [hnone (k + 1) hlt (Nat.le_refl _)]
+      exact ih (by omega) (fun j hj hjk => hnone j hj (by omega))
+
+/-- **decode round trip**: over a decodable table, decoding the concatenated codes of any sequence of entries
+    returns the concatenation of their texts -/
+theorem roundtrip_aux (t : Tbl) (hd : Decodable t) : ∀ (seq : List TblEntry), (∀ e ∈ seq, e ∈ t.entries) →
+    ∀ fuel, (seq.flatMap (·.code)).length ≤ fuel → toTextAux t fuel (seq.flatMap (·.code)) = .ok (seq.flatMap (·.text)) := by
+  intro seq
+  induction seq with
+  | nil =>
+    intro _ fuel _
+    cases fuel <;> simp [toTextAux]
+  | cons e rest ih =>
+    intro hmem fuel hfuel
+    have he : e ∈ t.entries := hmem e List.mem_cons_self
+    have hne := hd.nonEmpty e he
+    simp only [List.flatMap_cons] at hfuel ⊢
+    generalize hrest : rest.flatMap (·.code) = tail at hfuel ⊢
+    have hlenpos : 0 < e.code.length := List.length_pos_iff.mpr hne
+    cases fuel with
+    | zero => simp only [List.length_append] at hfuel; omega
+    | succ fuel =>
+      obtain ⟨b, cs, hcode⟩ := List.exists_cons_of_ne_nil hne
+      have hrem : e.code ++ tail = b :: (cs ++ tail) := by rw [hcode]; rfl
+      unfold toTextAux
+      rw [hrem]
+      simp only
+      rw [← hrem]
+      -- the longest prefix of the remaining bytes that is a code is `e.code`
+      have htake : (e.code ++ tail).take e.code.length = e.code := by simp
+      obtain ⟨e', he'⟩ := tblInvLookup_mem t.entries e he
+      have hfound : tblInvLookup t.entries ((e.code ++ tail).take e.code.length) = some e' := by rw [htake]; exact he'
+      have he'eq : e' = e := by
+        obtain ⟨hm, hc⟩ := tblInvLookup_some _ _ _ he'
+        exact hd.unique e' hm e he hc
+      have hlonger : ∀ j, e.code.length < j → j ≤ min (e.code ++ tail).length t.maxCodeLen →
+          tblInvLookup t.entries ((e.code ++ tail).take j) = none := by
+        intro j hj hjk
+        cases hx : tblInvLookup t.entries ((e.code ++ tail).take j) with
+        | none => rfl
+        | some x =>
+          exfalso
+          obtain ⟨hxm, hxc⟩ := tblInvLookup_some _ _ _ hx
+          have hjlen : j ≤ (e.code ++ tail).length := by omega
+          have hxlen : x.code.length = j := by rw [hxc, List.length_take]; omega
+          have hpre : e.code <+: x.code := by
+            rw [hxc]
+            have h1 : e.code <+: e.code ++ tail := List.prefix_append _ _
+            have h2 : (e.code ++ tail).take j <+: e.code ++ tail := List.take_prefix _ _
+            exact List.prefix_of_prefix_length_le h1 h2 (by rw [List.length_take]; omega)
+          have := hd.prefixFree e he x hxm hpre
+          rw [this] at hj; omega
+      have hk : e.code.length ≤ min (e.code ++ tail).length t.maxCodeLen := by
+        have := hd.maxLen e he
+        simp only [List.length_append]; omega
+      rw [tryLenBytes_found t.entries (e.code ++ tail) e.code.length e' hlenpos hfound _ hk hlonger]
+      simp only
+      rw [he'eq, hd.noIgnore e he]
+      simp only
+      have hdrop : (e.code ++ tail).drop e.code.length = tail := by simp
+      rw [hdrop, ← hrest]
+      rw [ih (fun x hx => hmem x (List.mem_cons_of_mem _ hx)) fuel (by rw [hrest]; simp only [List.length_append] at hfuel; omega)]
+
+theorem roundtrip (t : Tbl) (hd : Decodable t) (seq : List TblEntry) (hmem : ∀ e ∈ seq, e ∈ t.entries) :
+    t.toText (seq.flatMap (·.code)) = .ok (seq.flatMap (·.text)) :=
+  roundtrip_aux t hd seq hmem _ (Nat.le_refl _)
+
+
+/-- non-vacuity: the table `01=a 02=b 0304=ab` is decodable, and the bytes of `a, ab, b` decode to `aabb` -/
+example :
+    let es : List TblEntry := [⟨['a'], [1], none⟩, ⟨['b'], [2], none⟩, ⟨['a', 'b'], [3, 4], none⟩]
+    (Tbl.toText ⟨es, 2, 2⟩ [1, 3, 4, 2]).toOption = some ['a', 'a', 'b', 'b'] := by decide
 
 end A816.C18
